@@ -419,7 +419,7 @@ class Gen:
         if oper:
             self.line(sid, "PASS oper=op secret")
         self.line(sid, "NICK " + nick, addr=self.rng.choice(ADDRS[1:4]))
-        self.line(sid, "USER %s 0 * :%s" % (self.rng.choice(["u", "blah"]), "Real " + nick))
+        self.line(sid, "USER %s 0 * :%s" % (self.rng.choice(["u", "blah", "u", "blah", "u" * 600, "ü" * 31, "a" * 30, "b" * 31, "x😀" * 200]), "Real " + nick))
         self.sessions[sid]["registered"] = True
         self.sessions[sid]["nick"] = nick
         if nick and nick not in self.used_nicks:
@@ -431,7 +431,7 @@ class Gen:
         self.line(sid, "SERVER services.localhost.net 1 :Services")
         self.sessions[sid]["server"] = True
         for n in self.rng.sample(SVCNICKS, self.rng.choice([1, 2, 3])):
-            self.line(sid, "NICK %s 1 1 services localhost.net services.localhost.net 0 :%s" % (n, n))
+            self.line(sid, "NICK %s 1 1 %s localhost.net services.localhost.net 0 :%s" % (n, self.rng.choice(["services", "services", "s" * 500]), n))
             self.svcnicks.append(n)
             for _ in range(self.rng.choice([0, 1, 2, 2])):
                 self.line(sid, ":%s JOIN %s" % (n, self.rng.choice((self.joined or []) + ["#a", "#b", "#secret"])))
